@@ -123,6 +123,18 @@ func genC08(t *rapid.T) C08Case {
 			lab["stray-assembly-file"] = true
 		}
 	}
+	// word lists below include/ and exclude/ whose names look like rule ids, and a directory named like an
+	// assembly file: none of them is the assembly file of a rule
+	for _, name := range []string{"include/932100.ra", "exclude/941100.ra", "include/932110-chain1.ra", "include/949999.ra"} {
+		if rapid.IntRange(0, 5).Draw(t, "rulenamedlist") == 0 {
+			c.Stray[name] = "word list named like a rule\nsecond word\n"
+			lab["include-file-named-like-a-rule"] = true
+		}
+	}
+	if rapid.IntRange(0, 7).Draw(t, "dirnamedra") == 0 {
+		c.Stray["932205.ra/inside.txt"] = "a directory named like an assembly file\n"
+		lab["directory-named-like-an-assembly-file"] = true
+	}
 	idx := make([]int, n)
 	for i := range idx {
 		idx[i] = i
@@ -261,6 +273,14 @@ func checkC08(c C08Case) Outcome {
 		addressable := map[string]bool{"common.ra": true, "words.ra": true}
 		for _, a := range c.Asms {
 			addressable[a.Name] = true
+		}
+		// the report names files by base name only: a stray file with the base name of an addressable one
+		// (include/932100.ra next to 932100.ra) makes that name ambiguous, it is left out of the comparison
+		for n := range c.Stray {
+			if i := strings.LastIndexByte(n, '/'); i >= 0 {
+				n = n[i+1:]
+			}
+			delete(addressable, n)
 		}
 		reported := func(stdout string) map[string]bool {
 			m := map[string]bool{}
